@@ -175,12 +175,19 @@ class Driver:
             self.raw = {"ih5": IH5Record, "mf": IH5MFRecord}[self.kind](self.d / "c", "w")
         self.mc = MetadorContainer(self.raw)
 
-    def reopen(self):
-        self.raw.close()
+    def reopen(self, mode: str = "r+"):
+        try:
+            self.raw.close()
+        except RuntimeError:
+            # HDF5 itself: after refused modifications of a file opened read-only, closing may try to flush its
+            # cache and fail with EBADF; nothing can have reached the disk.  Only tolerated for read-only handles.
+            if getattr(self, "_mode", "r+") != "r":
+                raise
+        self._mode = mode
         if self.kind == "h5":
-            self.raw = h5py.File(self.d / "c.h5", "r+")
+            self.raw = h5py.File(self.d / "c.h5", mode)
         else:
-            self.raw = {"ih5": IH5Record, "mf": IH5MFRecord}[self.kind](self.d / "c", "r+")
+            self.raw = {"ih5": IH5Record, "mf": IH5MFRecord}[self.kind](self.d / "c", mode)
         self.mc = MetadorContainer(self.raw)
 
     def boundary(self):
